@@ -74,9 +74,16 @@ DECLS = {
     "Ga": ("abstract class Ga<T> { public constructor() -> Ga<T> = default; public virtual function f(T x) -> int; public virtual function f(Foo x) -> int { return 3; } }", ["Foo"], []),
     "BadDb": ("class BadDb<T> extends Ga<T> { public constructor() -> BadDb<T> { super(); } public function f(T x) -> string { return \"two\"; } }", ["Ga", "Qv"],
               ["Ga<Qv> ga = new BadDb<Qv>();", "echo(ga.f(new Qv()));"]),
+    # (seed C10-4) a generic class whose type parameter carries the name of a real class, next to a plain class that uses the real one
+    "Item": ("class Item { public int v; public constructor(int v) -> Item { this.v = v; } public function get() -> int { return this.v; } }", [], ["Item it0 = new Item(5);", "echo(it0.get());"]),
+    "BoxItem": ("class BoxItem<Item> { public Item held; public constructor(Item x) -> BoxItem<Item> { this.held = x; } public function take() -> Item { return this.held; } }", [],
+                ["BoxItem<int> bi = new BoxItem<int>(9);", "echo(bi.take());"]),
+    "Shelf": ("class Shelf { public Item first; public constructor(Item a) -> Shelf { this.first = a; } public function top() -> Item { return this.first; } }", ["Item"],
+              ["Shelf shf = new Shelf(new Item(7));", "Item tp = shf.top();", "echo(tp.get());"]),
+    "ShelfUser": ("function describe(Shelf s) -> int { Item t = s.top(); return t.get(); }", ["Shelf"], ["echo(describe(new Shelf(new Item(3))));"]),
 }
 # subsets that the size bounds of the quick tier would leave out
-EXTRA_SUBSETS = [("say", "GS", "AS", "HS", "BS"), ("Foo", "Qv", "Zb", "Gv", "Dv"), ("Foo", "Qv", "Zb", "Ga", "BadDb")]
+EXTRA_SUBSETS = [("Item", "BoxItem", "Shelf", "ShelfUser"), ("say", "GS", "AS", "HS", "BS"), ("Foo", "Qv", "Zb", "Gv", "Dv"), ("Foo", "Qv", "Zb", "Ga", "BadDb")]
 
 
 def closed(sub):
